@@ -46,6 +46,7 @@ type action struct {
 	mu   sync.Mutex
 	// per-case script / record
 	tryErr, commitErr, rollbackErr bool
+	resultFalse                    bool
 	tries                          []int64 // ticks
 	commits, rollbacks             []invocation
 }
@@ -53,6 +54,7 @@ type action struct {
 func (a *action) reset() {
 	a.mu.Lock()
 	a.tryErr, a.commitErr, a.rollbackErr = false, false, false
+	a.resultFalse = false
 	a.tries, a.commits, a.rollbacks = nil, nil, nil
 	a.mu.Unlock()
 }
@@ -79,7 +81,7 @@ func (a *action) Commit(ctx context.Context, b *tm.BusinessActionContext) (bool,
 	if a.commitErr {
 		return false, errors.New("confirm failed")
 	}
-	return true, nil
+	return !a.resultFalse, nil
 }
 
 func (a *action) Rollback(ctx context.Context, b *tm.BusinessActionContext) (bool, error) {
@@ -89,7 +91,7 @@ func (a *action) Rollback(ctx context.Context, b *tm.BusinessActionContext) (boo
 	if a.rollbackErr {
 		return false, errors.New("cancel failed")
 	}
-	return true, nil
+	return !a.resultFalse, nil
 }
 func (a *action) GetActionName() string { return a.name }
 
@@ -266,6 +268,9 @@ type P2 struct {
 	Resource  string `json:"resource,omitempty"`
 	Data      string `json:"data"` // echo | empty | malformed | nonobject
 	MethodErr bool   `json:"method_err,omitempty"`
+	// ResultFalse: the user method returns (false, nil). The statement ties the status to the error
+	// only, so this must still be reported as committed / rollbacked.
+	ResultFalse bool `json:"result_false,omitempty"`
 }
 
 type Case struct {
@@ -452,6 +457,7 @@ func execute(c Case) *pt.Failure {
 			x.mu.Lock()
 			before[x] = snap{len(x.commits), len(x.rollbacks)}
 			x.commitErr, x.rollbackErr = p.MethodErr, p.MethodErr
+			x.resultFalse = p.ResultFalse
 			x.mu.Unlock()
 		}
 		end := message.AbstractBranchEndRequest{Xid: b.Xid, BranchId: b.ID, BranchType: branch.BranchTypeTCC, ResourceId: res, ApplicationData: data}
@@ -582,7 +588,7 @@ func drawCase(t *rapid.T) Case {
 	for i := 0; i < m; i++ {
 		p := P2{Branch: rapid.IntRange(0, 2).Draw(t, "branch"), Rollback: rapid.Bool().Draw(t, "rollback"),
 			Data:      rapid.SampledFrom([]string{"echo", "echo", "echo", "echo", "empty", "malformed", "nonobject"}).Draw(t, "data"),
-			MethodErr: rapid.IntRange(0, 3).Draw(t, "methodErr") == 0}
+			MethodErr: rapid.IntRange(0, 3).Draw(t, "methodErr") == 0, ResultFalse: rapid.IntRange(0, 3).Draw(t, "resultFalse") == 0}
 		if rapid.IntRange(0, 5).Draw(t, "unknownRes") == 0 {
 			p.Resource = "no-such-action"
 		}
@@ -603,7 +609,7 @@ func record(test string, c Case) {
 	}
 	for _, p := range c.Phase2 {
 		labels = append(labels, "p2-data:"+p.Data)
-		shape += fmt.Sprintf("p%d%v%s%s%v;", p.Branch, p.Rollback, p.Data, p.Resource, p.MethodErr)
+		shape += fmt.Sprintf("p%d%v%s%s%v;", p.Branch, p.Rollback, p.Data, p.Resource, p.MethodErr) + fmt.Sprint(p.ResultFalse)
 	}
 	ctx.Rec.Case(test, tagged && len(c.Phase2) > 0, shape, c, labels...)
 }
